@@ -130,7 +130,7 @@ def run_property(prop, tier='quick', fresh=None):
                     '(an anchor was lost or the rule matches vacuously)' % (n, floor))
 
     known, fixed = load_known()
-    out_dir = os.path.join(VERIF, 'out', prop if os.path.realpath(engine.repo_dir()) == '/repo' else 'scratch-' + prop)
+    out_dir = os.path.join(VERIF, 'out', prop if os.path.realpath(engine.repo_dir()) == '/repo' else 'scratch%s-%s' % (os.environ.get('AFFCHECK_SLOT', ''), prop))
     os.makedirs(out_dir, exist_ok=True)
     for f in os.listdir(out_dir):
         if f.endswith('.json'):
@@ -293,7 +293,7 @@ def write_evidence(mod, ctx, prop, tier, seed, wall, info, violations, known_hit
         'violations': len(violations),
     }
     # evidence is only ever written for /repo itself; runs against scratch copies (selftest) go elsewhere
-    evdir = os.path.join(VERIF, 'evidence') if os.path.realpath(engine.repo_dir()) == '/repo' else os.path.join(VERIF, 'out', 'evidence-scratch')
+    evdir = os.path.join(VERIF, 'evidence') if os.path.realpath(engine.repo_dir()) == '/repo' else os.path.join(VERIF, 'out', 'evidence-scratch' + os.environ.get('AFFCHECK_SLOT', ''))
     os.makedirs(evdir, exist_ok=True)
     with open(os.path.join(evdir, prop + '.json'), 'w') as f:
         json.dump(ev, f, indent=1, default=str)
